@@ -185,3 +185,14 @@ REAL_STUB = {
     "network / disk between nodes": "STUB: the hub's in-memory transport",
     "clock": "none: nothing in the system reads one (no simulated time to report; logical steps only)",
 }
+
+
+def dump_digests(prop, pairs):
+    """VERIF_DUMP_DIGESTS=<dir>: write run index -> digest, for the determinism sweep tool."""
+    d = os.environ.get("VERIF_DUMP_DIGESTS")
+    if not d:
+        return
+    os.makedirs(d, exist_ok=True)
+    with open(os.path.join(d, prop + ".digests"), "w") as f:
+        for i, dg in sorted(pairs):
+            f.write("%s %s\n" % (i, dg))
